@@ -188,7 +188,7 @@ CLAIMED = {
          'queues, JsonParser read-back; partial operations = CRASH) fed by the formatter event alphabet of Run.tla; TLC proves grammar / json_mirror / '
          'json_readback / plain_once / progress_once / agree / no_crash on every generated run shape (backgrounds at both levels, rules, selection, '
          'show_skipped, dry-run, undefined steps, converter errors); real runs of the shared plan with all report writers on (and subsets/orders of the '
-         'built-in formatters, and runs whose elements are excluded by hooks calling skip()) are projected (JSON tree, read-back model, plain lines, progress '
+         'built-in formatters, runs whose elements are excluded by hooks calling skip(), scenarios whose steps compare equal, the scenario variant of the progress formatter judged by C15.agree/scenario_marks) are projected (JSON tree, read-back model, plain lines, progress '
          "characters, the recording formatter's stream) and judged by TLC."},
 }
 
